@@ -54,7 +54,18 @@ def _snapshot(prefix):
 
     import numpy as _np
 
-    snap = {"mods": {}, "names": {}, "bind": {}, "arrays": {}}
+    snap = {"mods": {}, "names": {}, "bind": {}, "arrays": {}, "defaults": []}
+
+    def _defaults(fn):
+        fn = getattr(fn, "__func__", fn)
+        fn = getattr(fn, "__wrapped__", fn)
+        for holder in (getattr(fn, "__defaults__", None) or ()), tuple((getattr(fn, "__kwdefaults__", None) or {}).values()):
+            for d in holder:
+                if isinstance(d, (dict, list, set)):
+                    try:
+                        snap["defaults"].append((d, copy.deepcopy(d)))  # mutable default arguments are hidden state too
+                    except Exception:  # noqa: BLE001
+                        pass
     for name, mod in list(sys.modules.items()):
         if mod is None or not (name == prefix or name.startswith(prefix + ".")):
             continue
@@ -62,6 +73,12 @@ def _snapshot(prefix):
         for k, v in list(vars(mod).items()):
             if k.startswith("__"):
                 continue
+            if isinstance(v, types.FunctionType) and getattr(v, "__module__", None) == name:
+                _defaults(v)
+            elif inspect.isclass(v) and getattr(v, "__module__", None) == name:
+                for cv in vars(v).values():
+                    if isinstance(cv, (types.FunctionType, staticmethod, classmethod)):
+                        _defaults(cv)
             if not isinstance(v, (types.ModuleType, types.FunctionType, type)):
                 snap["bind"][(name, k)] = v  # module globals that are rebound later (counters, buffers, flags)
                 if isinstance(v, _np.ndarray):
@@ -102,6 +119,15 @@ def reset_state(prefix="score_analysis"):
         elif isinstance(cur, set):
             cur.clear()
             cur.update(copy.deepcopy(v0))
+    for d, d0 in snap.get("defaults", []):
+        if isinstance(d, dict):
+            d.clear()
+            d.update(copy.deepcopy(d0))
+        elif isinstance(d, list):
+            d[:] = copy.deepcopy(d0)
+        else:
+            d.clear()
+            d.update(copy.deepcopy(d0))
     for (name, k), v0 in snap["bind"].items():
         mod = sys.modules.get(name)
         if mod is not None and vars(mod).get(k, v0) is not v0:
